@@ -514,7 +514,20 @@ impl LangGen {
                 self.tag("eval");
                 let a = self.expr(Ty::Int, cx, 0);
                 let b = self.expr(Ty::Int, cx, 0);
-                match self.rng.below(3) {
+                match self.rng.below(7) {
+                    // the datum given to eval goes through macro expansion like any program text
+                    3 => {
+                        self.tag("eval-derived-form");
+                        format!("(eval (list 'let (list (list 'u {}) (list 'w {})) '(cond ((< u w) (- w u)) (else (- u w)))))", a, b)
+                    }
+                    4 => {
+                        self.tag("eval-derived-form");
+                        format!("(eval `(let* ((u ,{}) (w (+ u 1))) (if (and (> w u) (or #f #t)) (when #t (* u 2)) 0)))", a)
+                    }
+                    5 => {
+                        self.tag("eval-derived-form");
+                        format!("(eval `(do ((i 0 (+ i 1)) (s ,{} (+ s i))) ((= i 3) s)))", a)
+                    }
                     0 => format!("(eval (list '+ {} {}))", a, b),
                     1 => format!("(eval `(* ,{} 2))", a),
                     _ => format!("((eval '(lambda (u w) (- u w))) {} {})", a, b),
